@@ -355,7 +355,7 @@ impl<U: User, E: Engine<U>> Builder<U, E> {
                     Rel::Empty => r::empty(a[0].clone()).cast_into(),
                 }
             }
-            G::For(x, coll, body) => {
+            G::For(x, coll, body) | G::ForList(x, coll, body) => {
                 // The loop variable is substituted by each element: the body closure receives the
                 // element and the harness rebuilds the body with `x` bound to it.
                 let coll_terms: Vec<LTerm<U, E>> = coll.iter().map(|t| e.enc(t)).collect();
@@ -365,14 +365,16 @@ impl<U: User, E: Engine<U>> Builder<U, E> {
                 };
                 let body = body.clone();
                 let x = *x;
-                proto_vulcan::operator::everyg(ForOperatorParam::new(
-                    coll_terms,
-                    Box::new(move |elem: LTerm<U, E>| {
-                        let b2 = b.with_binding(x, elem);
-                        b2.conj::<K>(&body)
-                    }),
-                ))
-                .cast_into()
+                let gen: Box<dyn Fn(LTerm<U, E>) -> K> = Box::new(move |elem: LTerm<U, E>| {
+                    let b2 = b.with_binding(x, elem);
+                    b2.conj::<K>(&body)
+                });
+                if matches!(g, G::For(_, _, _)) {
+                    proto_vulcan::operator::everyg(ForOperatorParam::new(coll_terms, gen)).cast_into()
+                } else {
+                    let list: LTerm<U, E> = LTerm::from_vec(coll_terms);
+                    proto_vulcan::operator::everyg(ForOperatorParam::new(list, gen)).cast_into()
+                }
             }
             G::Project(vs, gs) => {
                 // Mirrors the macro expansion: the names are rebound to Projection terms.
